@@ -56,7 +56,7 @@ LEVEL_TEXT = ("Generated histories (merges up to 3 parents, criss-cross, ghost "
 LEVEL_NOTE = ("Trusted: dirstate, vcsgraph heads, bzrformats storage; the model "
               "takes the committed tree from the harness' own bookkeeping and "
               "uses its own graph code.")
-REGISTERED = False
+REGISTERED = True
 NONTRIVIAL_FLOOR = {"quick": 150, "thorough": 3000}
 
 FORMATS = ["2a", "2a", "pack-0.92", "pack-0.92", "knit"]
